@@ -1658,9 +1658,19 @@ func resolveIndex(v, index reflect.Value, indexAsStr string) (reflect.Value, err
 		// Slow path: use reflect directly
 		tField, ok := typ.FieldByName(key)
 		if ok {
-			field := v.FieldByIndex(tField.Index)
 			if tField.PkgPath != "" { // field is unexported
 				return reflect.Value{}, fmt.Errorf("%s is an unexported field of struct type %s", indexAsStr, v.Type())
+			}
+			field := v
+			for i, x := range tField.Index {
+				if i > 0 && field.Kind() == reflect.Ptr {
+					// promoted through an embedded pointer
+					if field.IsNil() {
+						return reflect.Value{}, fmt.Errorf("nil pointer evaluating %s.%s", field.Type(), indexAsStr)
+					}
+					field = field.Elem()
+				}
+				field = field.Field(x)
 			}
 			return indirectEface(field), nil
 		}
